@@ -354,8 +354,17 @@ func c13R3(c *Ctx, rule string) {
 					if n == "sync/atomic.AddUint32" {
 						k, ok := intConst(x.Call.Args[1])
 						// the id used must be result-1
-						usedOK := true
+						// (an increment whose result is thrown away allocates nothing: the id then comes from somewhere else)
+						usedOK := false
 						for _, r := range *x.Referrers() {
+							if _, isDbg := r.(*ssa.DebugRef); !isDbg {
+								usedOK = true
+							}
+						}
+						for _, r := range *x.Referrers() {
+							if _, isDbg := r.(*ssa.DebugRef); isDbg {
+								continue
+							}
 							bo, isB := r.(*ssa.BinOp)
 							if !isB || bo.Op != token.SUB {
 								usedOK = false
@@ -367,7 +376,30 @@ func c13R3(c *Ctx, rule string) {
 						}
 						c.Check(ok && k == 1 && usedOK, rule, construct, c.at(i), "AddUint32(&nextStreamID, 1), id = result-1", "stream id counter changed by something other than +1 or id not the pre-increment value")
 					} else if n == "sync/atomic.LoadUint32" {
-						c.OK(rule, construct+" (load)", c.at(i), "read only")
+						// a load may be compared or logged, but an id must never be taken from it: read and increment would be
+						// two steps, and two concurrent OpenStream calls would get the same id (same nonce for different frames)
+						feeds := ""
+						allInstrs(f, func(j ssa.Instruction) {
+							switch y := j.(type) {
+							case *ssa.Call:
+								if g := y.Call.StaticCallee(); g != nil && p.InRepo(g) && g != f {
+									for _, a := range y.Call.Args {
+										if isIntValue(a) && valueDependsOn(a, x, 0) {
+											feeds = "argument of " + shortFn(g)
+										}
+									}
+								}
+							case *ssa.MapUpdate:
+								if valueDependsOn(y.Key, x, 0) {
+									feeds = "key of a map insert"
+								}
+							case *ssa.Store:
+								if fv2, _ := fieldVar(y.Addr); fv2 != nil && fv2.Name() == "StreamID" && valueDependsOn(y.Val, x, 0) {
+									feeds = "Frame.StreamID"
+								}
+							}
+						})
+						c.Check(feeds == "", rule, construct+" (load)", c.at(i), "read only (compared / logged)", "a stream id is taken from a plain load of the counter ("+feeds+"): allocation is no longer one atomic step, concurrent OpenStream calls can return the same id")
 					} else if n == "sync/atomic.StoreUint32" {
 						root, _ := fieldChain(arg)
 						_, ctor := root.(*ssa.Alloc)
